@@ -644,7 +644,10 @@ def run_oto(case):
                 elif name == "pop":
                     res = _res_ok(_val(x.pop(obj(op[4]))))
                 elif name == "popd":
-                    res = _res_ok(_val(x.pop(obj(op[4]), obj(op[5]))))
+                    if (op[4] + op[5]) % 2:        # the default given by keyword / positionally, in rotation
+                        res = _res_ok(_val(x.pop(obj(op[4]), default=obj(op[5]))))
+                    else:
+                        res = _res_ok(_val(x.pop(obj(op[4]), obj(op[5]))))
                 elif name == "popitem":
                     k, v = x.popitem()
                     res = _res_ok(["pair", tok(k), tok(v)])
@@ -654,7 +657,10 @@ def run_oto(case):
                     if op[5] == NONE_TOK and (len(case["ops"]) + op[4]) % 2:
                         res = _res_ok(_val(x.setdefault(obj(op[4]))))
                     else:
-                        res = _res_ok(_val(x.setdefault(obj(op[4]), obj(op[5]))))
+                        if (op[4] + op[5]) % 2:
+                            res = _res_ok(_val(x.setdefault(obj(op[4]), default=obj(op[5]))))
+                        else:
+                            res = _res_ok(_val(x.setdefault(obj(op[4]), obj(op[5]))))
                 elif name == "get":
                     res = _res_ok(_val(x[obj(op[4])]))
                 elif name in ("update", "ior"):
@@ -726,7 +732,7 @@ def run_m2m(case):
                     m = M() if not op[2] else M([(obj(k), obj(v)) for k, v in op[2]])
                 else:
                     a, kw, cleanup = make_arg(op[1], op[2])
-                    m = M(a[0])
+                    m = M(items=a[0]) if len(op[2]) % 2 else M(a[0])
                     cleanup()
                 assert type(m.inv) is M
                 insts.append(m)
